@@ -10,25 +10,26 @@ PID = "C10"
 NOSHAPE = [-1]
 
 
-def write_ops(workdir, name, part, bcast, dims):
+def write_ops(workdir, name, part, bcast, dims, variant="pinned"):
     os.makedirs(workdir, exist_ok=True)
     mod = "MC_MVNOps_" + name
     with open(os.path.join(workdir, mod + ".tla"), "w") as f:
         f.write("---- MODULE %s ----\nEXTENDS MVNOps\nDimsDef == {%s}\n====\n" % (mod, ", ".join(map(str, dims))))
     cfg = os.path.join(workdir, mod + ".cfg")
-    tlc.write_cfg(cfg, spec="Spec", constants={"Part": part, "Bcast": bool(bcast), "Dims": "<- DimsDef"},
+    tlc.write_cfg(cfg, spec="Spec", constants={"Part": part, "Bcast": bool(bcast), "Dims": "<- DimsDef", "Variant": variant},
                   invariants=["LogProbShapeOK", "OpsOK", "BcastDefOK"])
     return os.path.join(workdir, mod + ".tla"), cfg
 
 
 def tlc_jobs(wd, thorough):
     jobs, meta = [], []
-    for part in ("logprob", "ops"):
-        for bcast in (False, True):
-            name = "%s_%s" % (part, "bcast" if bcast else "plain")
-            mod, cfg = write_ops(os.path.join(wd, "mc"), name, part, bcast, (1, 2))
-            jobs.append(((mod, cfg), dict(name=PID + "/ops_" + name, timeout=1800, dump=True, check=False, workers=2, heap="3g", extra=["-continue"])))
-            meta.append(dict(part=part, bcast=bcast, name=name))
+    for bcast, variant in ((False, "pinned"), (True, "pinned"), (True, "fixed")):
+        name = ("bcast" if bcast else "plain") + ("_fixed" if variant == "fixed" else "")
+        # quick: the broadcast representations (mean batch != covariance batch) over dims {2} only; size-1 dimensions of the
+        # plain representations stay in
+        mod, cfg = write_ops(os.path.join(wd, "mc"), name, "both", bcast, (1, 2) if thorough or not bcast else (2,), variant)
+        jobs.append(((mod, cfg), dict(name=PID + "/ops_" + name, timeout=1800, dump=(variant == "pinned"), check=False, workers=2, heap="3g", extra=["-continue"])))
+        meta.append(dict(bcast=bcast, name=name, variant=variant))
     return jobs, meta
 
 
@@ -341,13 +342,18 @@ def _numeric_worker(item):
 def run(ck, meta, results):
     thorough = ck.tier == "thorough"
     configs = {}          # (mb, cb, lazy) -> dict(vbs=[], ops=[])
+    tlc_pred = {}
     for m, res in zip(meta, results):
         ck.add_tlc(res, "MVNOps " + m["name"])
         if res.rc != 0 and res.violation is None:
             raise tlc.TLCError("TLC failed on MVNOps %s:\n%s" % (m["name"], res.stdout[-1500:]))
-        if res.violation is not None:
-            ck.model_drift("MVNOps.tla (model of the current code) violates %s on %s (%d violation reports%s): a prediction, decided by the replay" % (
-                res.violation["name"], m["name"], res.stdout.count("is violated"), "; broadcast representation" if m["bcast"] else ""))
+        if m["bcast"]:
+            tlc_pred[m["variant"]] = (res.violation or {}).get("name"), res.stdout.count("is violated")
+        elif res.violation is not None:
+            ck.model_drift("MVNOps.tla (model of the current code) violates %s on %s (%d violation reports): a prediction, decided by the replay" % (
+                res.violation["name"], m["name"], res.stdout.count("is violated")))
+        if m["variant"] != "pinned":
+            continue
         states = res.states()
         if not states:
             ck.vacuous("MVNOps run %s generated no case" % m["name"])
@@ -375,7 +381,11 @@ def run(ck, meta, results):
                 items.append(dict(n=n, mb=list(mb), cb=list(cb), rep=rep, seed=seed, vbs=sorted(e["vbs"]), ops=sorted(e["ops"], key=repr)))
     res = core.pmap(_numeric_worker, items, chunksize=1)
     ck.absorb(res)
-    ck.section("numeric-replay", configs=len(items), cases=len(res), failed=sum(1 for r in res if not r.get("ok", True)))
+    failed = [r for r in res if not r.get("ok", True)]
+    ck.section("numeric-replay", configs=len(items), cases=len(res), failed=len(failed))
+    from checks import c10
+    c10.report_variant(ck, "MVNOps.tla", tlc_pred["pinned"], tlc_pred["fixed"], sum(1 for r in failed if "-bcast/" in r["sig"]),
+                       "distributions whose mean and covariance batch shapes differ (broadcast representation)")
 
 
 def replay(rep):
